@@ -60,7 +60,18 @@ fn worker(path: &str, start: usize, end: usize) {
     let pid = prog["pid"].as_u64().unwrap_or(idx as u64);
     writeln!(out, "{}", json!({"op": "begin", "pid": pid, "idx": idx})).unwrap();
     out.flush().unwrap();
-    if prog["kind"].as_str() == Some("rope") {
+    if prog["kind"].as_str() == Some("conc") {
+      let recs = sched::run_program(pid, &prog);
+      let dead = recs.iter().any(|r| r["op"] == "died");
+      for rec in recs {
+        writeln!(out, "{}", rec).unwrap();
+      }
+      if dead {
+        // threads are stuck inside the crate; this process cannot go on
+        out.flush().unwrap();
+        std::process::exit(3);
+      }
+    } else if prog["kind"].as_str() == Some("rope") {
       for rec in ropex::run_program(pid, &prog) {
         writeln!(out, "{}", rec).unwrap();
       }
